@@ -279,6 +279,25 @@ def extract():
     else:
         raise ExtractionError(f'range_quantity_cardinality(3, 8) gives bounds ({c.lower_bound}, {c.upper_bound})')
 
+    # how the converter prints the weight of each preference type ('W' or '-W'), and the level
+    from cnl2asp.specification.proposition import PreferenceProposition
+    from cnl2asp.converter.asp_converter import ASPConverter
+    wn = {}
+    for t in PREFERENCE_PROPOSITION_TYPE:
+        p = PreferenceProposition()
+        p.type = t
+        p.weight = 'W'
+        p.level = 2
+        w = ASPConverter().convert_preference_proposition(p)
+        txt = str(w).strip()
+        if txt == '. [W@2]':
+            wn[t.name] = False
+        elif txt == '. [-W@2]':
+            wn[t.name] = True
+        else:
+            raise ExtractionError(f'weak constraint of an empty {t.name} preference prints {txt!r}')
+    T['pref_weight_negated'] = wn
+
     T['operators_negation'] = {k.name: v.name for k, v in operators_negation.items()}
     T['asp_symbols'] = {k.name: v for k, v in ASPOperation.operators.items()}
     T['tel_symbols'] = {k.name: v for k, v in ASPTemporalOperation.asp_temporal_operators.items()}
@@ -363,6 +382,10 @@ def render_lean(T) -> str:
     table('directionPhrases', T['direction'], 'PrefType', lambda v: '.' + v)
     table('entityPrefixFlags', T['entity_prefix_flags'], 'List String',
           lambda v: '[' + ', '.join(lstr(x) for x in v) + ']')
+    A('def prefWeightNegated : PrefType → Bool')
+    for n, _ in T['enums']['PREFERENCE_PROPOSITION_TYPE']:
+        A(f'  | .{n} => {str(T["pref_weight_negated"][n]).lower()}')
+    A('')
     A('def quantityBounds : QOp → Bool × Bool')
     for n, _ in T['enums']['QUANTITY_OPERATOR']:
         lo, hi = T['quantity_bounds'][n]
